@@ -72,7 +72,7 @@ def all_dags(nodes):
             yield deps
 
 
-def dag_scenarios(nsteps, max_seq=2, orders=1):
+def dag_scenarios(nsteps, max_seq=2, orders=1, nest=False):
     """One scenario per (deriver ordering, DAG over the remaining steps)."""
     sids = ['s%d' % (i + 1) for i in range(nsteps)]
     out = []
@@ -85,6 +85,8 @@ def dag_scenarios(nsteps, max_seq=2, orders=1):
                     d = None if s in sq else deps[s]
                     vars_ = sorted(set([s, 'p1'] + (d or []) + list(sq)))
                     steps[s] = {'vars': vars_, 'deps': d}
+                    if nest and d is not None and (sids.index(s) % 2 == 0):
+                        steps[s]['group'] = 'ga'
                 # declaration order: derivers in sq order, graph steps reversed
                 # so that dictionary order never coincides with a valid order
                 order = list(sq) + list(reversed(graph))
